@@ -674,13 +674,13 @@ def joinCore (length : Nat) (args : List Val) : M σ Ret := fun s =>
       | value => E.ts value
     .ok (Ret.val (.str (goJoin stringList separator))) s
 
-/-- the separator is converted (`argument.string()`) before `length` is read -/
+/-- `length` is read, then the separator converted (`argument.string()`) -/
 def join (args : List Val) : M σ Ret := do
+  let length ← readLen O
   let pargs ← if argAt args 0 ≠ .undef then (do
       let p ← O.conv (argAt args 0)
       pure (args.set 0 (.str (E.ts p))))       -- separator = argument.string()
     else pure args
-  let length ← readLen O
   joinCore O E length pargs
 
 /-- an argument of concat: a primitive / non-array value, or an array given by its elements as
@@ -753,18 +753,16 @@ def lastIndexOfCore (len : Nat) (args : List Val) : M σ Ret := fun s =>
   else if 0 > index then .ok (indexRet none) s
   else search index
 
-/-- fromIndex is converted whatever the length -/
+/-- `if length == 0 { return -1 }` precedes the conversion of fromIndex -/
 def lastIndexOf (args : List Val) : M σ Ret := do
   let length ← readLen O
-  let pargs ← convAt O args 1
+  let pargs ← if length = 0 then pure args else convAt O args 1
   lastIndexOfCore O E length pargs
 
-/-- the callback builtins test `iterator.isCallable()` before they read `length` -/
-def iterate (callable : Bool) (core : Nat → M σ Ret) : M σ Ret :=
-  if !callable then M.throw .type
-  else do
-    let length ← readLen O
-    core length
+/-- the callback builtins read `length`, then test `iterator.isCallable()` -/
+def iterate (callable : Bool) (core : Nat → M σ Ret) : M σ Ret := do
+  let length ← readLen O
+  if !callable then M.throw .type else core length
 
 /-- builtinArrayEvery (builtin_array.go:514) -/
 def everyCore (length : Nat) : M σ Ret := fun s =>
@@ -901,7 +899,9 @@ def sortCompare (cmp : SortCmp) (s : σ) (index0 index1 : Nat) : Int :=
       | none =>
         let jv := E.ts x
         let kv := E.ts y
-        if jv = kv then 0 else if bytesLt jv kv then -1 else 1
+        -- lessThanUTF16 (evaluate.go:178): the order of the UTF-16 code units of the two Go strings
+        if jv = kv then 0
+        else if bytesLt (OttoVerif.Str.unitsOfBytes jv) (OttoVerif.Str.unitsOfBytes kv) then -1 else 1
       | some f => f x y
 
 /-- arraySortSwap (builtin_array.go:388) -/
